@@ -194,11 +194,11 @@ def fresh_value(ctx, name="value", allow_mapping=True):
     return Leaf(ctx.fresh(name, "int"))
 
 
-def as_setup(ctx, wheres=("d=store", "d=section-of-store", "d=other-dict"), records=(True, False)):
+def as_setup(ctx, wheres=("d=store", "d=section-of-store", "d=other-dict"), records=(True, False), lengths=(1, 2, 3)):
     init_ctx(ctx)
     n = 1
     depth = ctx.fresh("path_length", "int")
-    for cand in range(1, MAX_DEPTH + 1):
+    for cand in lengths:
         if ctx.branch(depth.t == cand):
             n = cand
             break
@@ -392,18 +392,20 @@ def as_on_raise(s, E):
     return []
 
 
-def as_contract(wheres, records=(True, False)):
+def as_contract(wheres, records=(True, False), lengths=(1, 2, 3)):
     tag = lambda s: f"[{','.join(s.case.split(',')[1:])}]" if s.mode == "verify" else ""
     return Contract(
-        f"{CFG}:set._assign", setup=unpruned(lambda ctx: as_setup(ctx, wheres, records)), ensures=lambda s: [(tag(s) + a, b) for a, b in as_ensures(s)],
+        f"{CFG}:set._assign", setup=unpruned(lambda ctx: as_setup(ctx, wheres, records, lengths)), ensures=lambda s: [(tag(s) + a, b) for a, b in as_ensures(s)],
         snapshot=as_snapshot, modifies=as_modifies,
         raises={TypeError: as_raises_typeerror}, on_raise=lambda s, E: [(tag(s) + a, b) for a, b in as_on_raise(s, E)], recursive_by_contract=True,
         note="path length enumerated 1..3; the recursive call is used through this contract (induction step at lengths 2 and 3); " + ",".join(wheres),
     )
 
 
-C_ASSIGN = as_contract(("d=store",))
-C_ASSIGN2 = as_contract(("d=section-of-store",), (True,))
+C_ASSIGN = as_contract(("d=store",), lengths=(1, 2))
+C_ASSIGN5 = as_contract(("d=store",), lengths=(3,))
+C_ASSIGN2 = as_contract(("d=section-of-store",), (True,), lengths=(1, 2))
+C_ASSIGN6 = as_contract(("d=section-of-store",), (True,), lengths=(3,))
 C_ASSIGN4 = as_contract(("d=section-of-store",), (False,))
 C_ASSIGN3 = as_contract(("d=other-dict",))
 
@@ -787,7 +789,8 @@ def ckv_ensures(s):
     if s.mode == "apply":
         if rv is s.val:
             return out
-        return out + [(a, implies(isdev, b)) for a, b in ckv_device_post(s, loose=False)]
+        # (the ghost list of torch.cuda.set_device calls is not replayed at call sites: leave that clause out there)
+        return out + [(a, implies(isdev, b)) for a, b in ckv_device_post(s, loose=False) if not a.startswith("torch-current-device-set")]
     if s.case == "other-key":
         return out + [("other-keys:value-returned-unchanged", z3.BoolVal(rv is s.val))]
     out += ckv_device_post(s, loose=False)
@@ -1690,7 +1693,7 @@ def rf_ensures(s):
 C_REFRESH = Contract(f"{CFG}:refresh", setup=unpruned(rf_setup), ensures=rf_ensures, snapshot=rf_snapshot,
                      note="0..3 opaque defaults; collect() is a parameter (empty, or an arbitrary user mapping); update is used through its contract")
 
-CONTRACTS = [C_CANON, C_ASSIGN, C_ASSIGN2, C_ASSIGN3, C_ASSIGN4, C_GET, C_VALIDATE, C_VALIDATE2, C_CHECK, C_CHECK2, C_INIT1, C_INIT2, C_INIT3, C_INIT4, C_ENTER, C_EXIT, C_SETDEV, C_GETDEV, C_DEVICE,
+CONTRACTS = [C_CANON, C_ASSIGN, C_ASSIGN2, C_ASSIGN3, C_ASSIGN4, C_ASSIGN5, C_ASSIGN6, C_GET, C_VALIDATE, C_VALIDATE2, C_CHECK, C_CHECK2, C_INIT1, C_INIT2, C_INIT3, C_INIT4, C_ENTER, C_EXIT, C_SETDEV, C_GETDEV, C_DEVICE,
              C_UPD_NEW, C_UPD_NEW2, C_UPD_OLD, C_UPD_OLD2, C_UPD_ND, C_UPD_ND2, C_MERGE, C_UPDDEF, C_UPDDEF2, C_UPDDEF3, C_REFRESH]
 
 
@@ -2419,7 +2422,7 @@ for _c, _rt, _fam, _conc in (
         (C_CHECK2, rt_device, fam_device_via("check_key_val"), conc_device("val", "check_key_val")),
         (C_SETDEV, rt_device, fam_device_via("set"), conc_device("dev", "set")),
         (C_INIT1, rt_history, fam_history_small, None), (C_INIT2, rt_history, fam_history_small, None), (C_INIT3, rt_history, fam_history_small, None), (C_INIT4, rt_device, fam_device_via("set"), conc_device("item_dev", "set")),
-        (C_ASSIGN, rt_history, fam_history_small, None), (C_ASSIGN2, rt_history, fam_history_small, None), (C_ASSIGN3, rt_history, fam_history_small, None), (C_ASSIGN4, rt_history, fam_history_small, None),
+        (C_ASSIGN, rt_history, fam_history_small, None), (C_ASSIGN2, rt_history, fam_history_small, None), (C_ASSIGN3, rt_history, fam_history_small, None), (C_ASSIGN4, rt_history, fam_history_small, None), (C_ASSIGN5, rt_history, fam_history_small, None), (C_ASSIGN6, rt_history, fam_history_small, None),
         (C_GET, rt_history, fam_history_small, None), (C_UPDDEF3, rt_device, fam_device_via("update_defaults"), conc_device("dev", "update_defaults")),
         (C_GETDEV, rt_history, fam_history_small, None), (C_DEVICE, rt_history, fam_history_small, None),
         (C_UPD_NEW, rt_update, fam_update, None), (C_UPD_OLD, rt_update, fam_update, None), (C_UPD_ND, rt_update, fam_update, None),
